@@ -19,6 +19,8 @@ import JanetModel.Value.LayoutTests
 import JanetModel.Value.NaN
 import JanetModel.Value.StringLoop
 import JanetModel.Value.AbstractInt
+import JanetModel.Value.PtrShortcut
+import JanetModel.Value.MapLookup
 
 namespace JanetModel.Props.C03
 open JanetModel.Value
@@ -643,9 +645,10 @@ theorem abstract_dispatch_tie :
 section abstract_example
 /-- a memory with an s64 at address 16 (payload −1), a u64 at 32 (payload 2^64−1: the same bits), a second s64 at 48
     (payload −1) and an unhooked abstract at 64; the s64 type record (1000) lies below the u64 one (2000) -/
-local instance exHeap : AbsHeap := intHeap (fun a => if a = 32 then 2000 else if a = 64 then 3000 else 1000)
+@[reducible] def exHeap : AbsHeap := intHeap (fun a => if a = 32 then 2000 else if a = 64 then 3000 else 1000)
   (fun a => if a = 64 then 0 else 0xFFFFFFFFFFFFFFFF) (fun t => if t = 1000 then s64Type else if t = 2000 then u64Type else ⟨none, none⟩)
 
+attribute [local instance] exHeap in
 /-- non-vacuity: that memory is lawful, and: the two s64 are `=` with one hash although different objects; s64 −1 and u64
     2^64−1 are not `=` and ordered by type, inside a tuple too; an unhooked abstract is only `=` to itself -/
 example :
@@ -663,5 +666,80 @@ example :
     · simp [h1, h2]
     · simp [h1, h2]
 end abstract_example
+
+/-! ### the pointer short-cuts of janet_equals (model `Value/PtrShortcut.lean`)
+
+`if (t1 == t2) break;` / `if (s1 == s2) break;` in front of the flag / hash / length tests: `equalsP` on values that carry the
+addresses of their tuples and structs.  For two values read from ONE memory the short-cuts never change the answer — they are
+reflexivity of `=` on the content.  (janet_compare has no such test for tuples and structs; the `xx == yy` test of
+janet_compare_abstract is in `compareAbstract` and redundant by `compare_abstract_is_type_then_hook`.) -/
+
+section ptr_shortcut
+
+/-- for every lawful leaf type (lawful numbers, lawful abstract hooks), any memory, any two values consistent with it -/
+theorem equals_pointer_shortcuts_are_reflexivity [AbsHeap] [LawfulAbstract] (mem : Nat → Option (AVal N)) (x y : PVal (Leaf N))
+    (hx : Consistent mem x) (hy : Consistent mem y) : equalsP x y = equalsL (erase x) (erase y) :=
+  equalsP_eq_equalsL mem x y hx hy
+
+/-- tie: where the C has (and has not) a pointer test, regenerated from janet_equals / janet_compare -/
+theorem pointer_shortcut_tie :
+    JanetModel.Gen.ValueAbs.equalsTuplePtrShortcut = equalsP.tupleShortcut ∧
+    JanetModel.Gen.ValueAbs.equalsStructPtrShortcut = equalsP.structShortcut ∧
+    JanetModel.Gen.ValueAbs.compareTuplePtrShortcut = false ∧ JanetModel.Gen.ValueAbs.compareStructPtrShortcut = false := by decide
+
+attribute [local instance] exHeap in
+/-- non-vacuity, and why reflexivity is the hypothesis: a shared tuple `t = [1 :a]` inside two different outer tuples in a
+    consistent memory compares equal with and without the short-cut; a tuple holding NaN compared WITH ITSELF is `=` through
+    the short-cut although its content is not (`nan_breaks_the_laws`) — the one place where the short-cut is observable -/
+example :
+    let one : PVal (Leaf F64) := .leaf (.num ⟨0x3FF0000000000000⟩)
+    let t : PVal (Leaf F64) := .tuple 100 false [one, .leaf (.kw [97])]
+    let x : PVal (Leaf F64) := .tuple 200 false [t, t]
+    let y : PVal (Leaf F64) := .tuple 300 false [t, .tuple 400 false [one, .leaf (.kw [97])]]
+    let mem : Nat → Option (AVal F64) := fun a =>
+      if a = 100 then some (erase t) else if a = 200 then some (erase x) else if a = 300 then some (erase y)
+      else if a = 400 then some (erase t) else none
+    let nanT : PVal (Leaf F64) := .tuple 500 false [.leaf (.num ⟨0x7FF8000000000000⟩)]
+    (Consistent mem x ∧ Consistent mem y) ∧ equalsP x y = true ∧ equalsL (erase x) (erase y) = true ∧
+    equalsP nanT nanT = true ∧ equalsL (erase nanT) (erase nanT) = false := by
+  refine ⟨⟨?_, ?_⟩, by decide, by decide, by decide, by decide⟩ <;> simp [Consistent, ConsistentL, erase, erases]
+
+end ptr_shortcut
+
+/-! ### structs by lookups (session 4b; `Value/MapLookup.lean`): the step from equal lookups to `MapEquiv` -/
+
+/-- **two insertion sequences whose final maps answer EVERY LOOKUP alike (values up to `=`) build `=` structs** — whatever the
+    duplicates, ignored pairs, orders, announced counts, choice among equal key objects.  By `struct_last_value_wins` the lookup
+    `mapGet (finalMap raw) k` is the value of the last accepted put under a key `=` to `k`, so: same last value under every key
+    ⇒ `=`, same hash, compare 0.  (Closes the gap left by `struct_by_map_content`, which asked for `MapEquiv`.) -/
+theorem struct_by_lookups (c₁ c₂ : Nat) (raw₁ raw₂ : List (Slot N)) (proto : List (JVal N))
+    (hc₁ : (raw₁.filter validPair).length ≤ c₁) (hc₂ : (raw₂.filter validPair).length ≤ c₂)
+    (h : ∀ k, contentEq (mapGet (finalMap raw₁) k) (mapGet (finalMap raw₂) k) = true) :
+    MapEquiv (finalMap raw₁) (finalMap raw₂) ∧
+    equals (structOfCount c₁ raw₁ proto) (structOfCount c₂ raw₂ proto) = true ∧
+    hash (structOfCount c₁ raw₁ proto) = hash (structOfCount c₂ raw₂ proto) ∧
+    jcompare (structOfCount c₁ raw₁ proto) (structOfCount c₂ raw₂ proto) = .eq := by
+  obtain ⟨hd₁, hv₁, _⟩ := finalMapR_spec true raw₁
+  obtain ⟨hd₂, hv₂, _⟩ := finalMapR_spec true raw₂
+  have hm : MapEquiv (finalMap raw₁) (finalMap raw₂) :=
+    mapEquiv_of_sameLookups _ _ hd₁ hd₂ (fun kv hkv => (hv₁ kv hkv).2) (fun kv hkv => (hv₂ kv hkv).2) h
+  exact ⟨hm, struct_by_map_content c₁ c₂ raw₁ raw₂ proto hc₁ hc₂ hm⟩
+
+/-- equal lookups ⇒ `MapEquiv`, for any two maps with pairwise different keys and non-nil values -/
+theorem map_equiv_of_equal_lookups (m₁ m₂ : List (Slot N)) (hd₁ : DistinctKeys m₁) (hd₂ : DistinctKeys m₂)
+    (hv₁ : ∀ kv ∈ m₁, kv.2.isNil = false) (hv₂ : ∀ kv ∈ m₂, kv.2.isNil = false)
+    (h : ∀ k, contentEq (mapGet m₁ k) (mapGet m₂ k) = true) : MapEquiv m₁ m₂ :=
+  mapEquiv_of_sameLookups m₁ m₂ hd₁ hd₂ hv₁ hv₂ h
+
+/-- non-vacuity: `{:a true 0 :x}` listed in two orders, −0 for +0 as key: pairwise different keys, and the lookups agree up to
+    `=` (checked under both keys, under the other zero, and under a missing key) -/
+example :
+    let m₁ : List (Slot F64) := [(.kw [97], .bool true), (.num ⟨0⟩, .kw [120])]
+    let m₂ : List (Slot F64) := [(.num ⟨0x8000000000000000⟩, .kw [120]), (.kw [97], .bool true)]
+    DistinctKeys m₁ ∧ DistinctKeys m₂ ∧ contentEq (mapGet m₁ (.kw [97])) (mapGet m₂ (.kw [97])) = true ∧
+    contentEq (mapGet m₁ (.num ⟨0⟩)) (mapGet m₂ (.num ⟨0⟩)) = true ∧
+    contentEq (mapGet m₁ (.num ⟨0x8000000000000000⟩)) (mapGet m₂ (.num ⟨0x8000000000000000⟩)) = true ∧
+    contentEq (mapGet m₁ .nil) (mapGet m₂ .nil) = true ∧ contentEq (mapGet m₁ (.num ⟨0x8000000000000000⟩)) (.kw [120]) = true := by
+  refine ⟨?_, ?_, by decide, by decide, by decide, by decide, by decide⟩ <;> (unfold DistinctKeys; decide)
 
 end JanetModel.Props.C03
